@@ -291,6 +291,21 @@ func c03Queries(c *Ctx) {
 	if !m.IsEmpty() {
 		c.Distinct(mix(m.Hash(), hashStr(form)))
 	}
+	if r.Chance(0.35) && !bm.ZC {
+		// the bitmap under query is the outcome of a history (emptied, trimmed, split, refilled chunks; in-place algebra)
+		for i := 0; i < 1+r.Intn(6) && !c.Failed(); i++ {
+			if r.Chance(0.25) {
+				algebraStep(c, bm, "history/")
+			} else {
+				mutateStep(c, bm, MutOpts{Light: true, NoClone: true, Sig: "history/"})
+			}
+		}
+		if c.Failed() {
+			return
+		}
+		m = bm.M
+		c.Count("bitmap_reached_by_a_history")
+	}
 	queryBattery(c, bm, 24)
 	if c.Failed() {
 		return
